@@ -381,6 +381,16 @@ impl C15 {
             }
         }
         if self.overlap {
+            // the package may exclude one of its candidates or be locked to one (both are known
+            // to the solver before any requirement reveals the candidate): a question that asks
+            // for such a candidate alone then has no solution, which the reference confirms
+            if n >= 2 && t.chance(1, 3) {
+                let k = t.below(n);
+                u.packages[0].cands[k].excluded = Some(0);
+            }
+            if n >= 2 && t.chance(1, 6) {
+                u.packages[0].locked = Some(t.below(n));
+            }
             // a union may also list the very same version set twice in a row (two equal specs
             // that were interned to one id): the meaning of the requirement does not change
             for ui in 0..u.unions.len() {
@@ -589,6 +599,21 @@ impl Property for C15 {
                             ),
                         });
                         return rep;
+                    }
+                    Exists::No if self.overlap => {
+                        // excluded / locked out: no solution contains it, and solve must say so
+                        if let Outcome::Sat(sol) = &res.outcome {
+                            rep.failure = Some(Failure {
+                                signature: "C15:unselectable-candidate-selected".into(),
+                                detail: format!(
+                                    "n={n}: candidate {i} ({}) is excluded or locked out, requiring it gave the solution {:?}",
+                                    u.display_solvable(want),
+                                    solution_refs(&ix, sol).map(|r| r.iter().map(|&s| u.display_solvable(s)).collect::<Vec<_>>())
+                                ),
+                            });
+                            return rep;
+                        }
+                        rep.labels.push("excluded-or-locked-out-candidate");
                     }
                     _ => panic!("HARNESS: C15 plan made single({i}) unsatisfiable"),
                 }
